@@ -940,6 +940,10 @@ class PGPMessage(Armorable, PGPObject):
             # RFC 4880 7.1: trailing spaces and tabs of a line are not part of the signed text of a cleartext message
             return re.subn(r'[ \t]+(?=\r?\n|\Z)', '', self.message)[0]
 
+        if self.type == 'literal':
+            # signatures on a literal message are made over the octets of the literal data packet, whatever text they decode to
+            return bytearray(self._message._contents)
+
         return self.message
 
     @property
